@@ -28,6 +28,8 @@ type c05Input struct {
 	PK       []int        `json:"pk"`
 	Base     [][]string   `json:"base"`
 	Branches [][][]string `json:"branches"`
+	BColumns [][]string   `json:"branchColumns"` // the columns of each branch (hex), when they differ from the base's
+	PKNames  []string     `json:"pkNames"`       // hex
 	Specs    []*TableSpec `json:"specs"` // base then branches (for replay)
 }
 
@@ -42,6 +44,7 @@ type c05Result struct {
 	PK        []string      `json:"pk"`
 	Conflicts []c05Conflict `json:"conflicts"`
 	Rows      [][]string    `json:"rows"`
+	CDNames   []string      `json:"cdNames"` // the merged layout the conflicts' rows and column indices refer to
 }
 
 func keyHash(pk []int, row []string) string {
@@ -121,6 +124,7 @@ func c05Run(specs []*TableSpec) Res {
 					break loop
 				}
 				if mg.ColDiff != nil {
+					out.CDNames = hxRow(mg.ColDiff.Names)
 					continue
 				}
 				k, found := keyOf[string(mg.PK)]
@@ -220,6 +224,70 @@ func deriveBranch(r *rand.Rand, base *TableSpec, pEdit, pDel float64, nAdd int, 
 	return out
 }
 
+// changeColumns applies column adds / removes / moves to a branch (never to a key column).
+func changeColumns(r *rand.Rand, b *TableSpec, tag string) *TableSpec {
+	out := &TableSpec{Columns: append([]string{}, b.Columns...), PK: b.PK}
+	for _, row := range b.Rows {
+		out.Rows = append(out.Rows, append([]string{}, row...))
+	}
+	iskey := func(name string) bool {
+		for _, k := range out.PK {
+			if k == name {
+				return true
+			}
+		}
+		return false
+	}
+	nOps := 1 + r.Intn(2)
+	for o := 0; o < nOps; o++ {
+		switch r.Intn(3) {
+		case 0: // add a column at a random position
+			// names are drawn from a small set so that two branches sometimes add the same column
+			name := []string{"x", "y", "x" + tag}[r.Intn(3)]
+			dup := false
+			for _, c := range out.Columns {
+				if c == name {
+					dup = true
+				}
+			}
+			if dup {
+				continue
+			}
+			pos := r.Intn(len(out.Columns) + 1)
+			out.Columns = append(out.Columns[:pos], append([]string{name}, out.Columns[pos:]...)...)
+			for i, row := range out.Rows {
+				v := []string{"p", "q", ""}[r.Intn(3)]
+				out.Rows[i] = append(row[:pos], append([]string{v}, row[pos:]...)...)
+			}
+		case 1: // remove a non-key column
+			cand := []int{}
+			for i, c := range out.Columns {
+				if !iskey(c) {
+					cand = append(cand, i)
+				}
+			}
+			if len(cand) == 0 || len(out.Columns) <= len(out.PK)+1 {
+				continue
+			}
+			pos := cand[r.Intn(len(cand))]
+			out.Columns = append(out.Columns[:pos], out.Columns[pos+1:]...)
+			for i, row := range out.Rows {
+				out.Rows[i] = append(row[:pos], row[pos+1:]...)
+			}
+		case 2: // move a column
+			if len(out.Columns) < 2 {
+				continue
+			}
+			i, j := r.Intn(len(out.Columns)), r.Intn(len(out.Columns))
+			out.Columns[i], out.Columns[j] = out.Columns[j], out.Columns[i]
+			for _, row := range out.Rows {
+				row[i], row[j] = row[j], row[i]
+			}
+		}
+	}
+	return out
+}
+
 func c05Emit(ctx *Ctx, specs []*TableSpec, tags ...string) {
 	base := specs[0]
 	pk := base.PKIdx()
@@ -239,6 +307,11 @@ func c05Emit(ctx *Ctx, specs []*TableSpec, tags ...string) {
 			rows = [][]string{}
 		}
 		in.Branches = append(in.Branches, rows)
+		in.BColumns = append(in.BColumns, hxRow(s.Columns))
+	}
+	in.PKNames = hxRow(base.PK)
+	if in.PKNames == nil {
+		in.PKNames = []string{}
 	}
 	if sameCols {
 		tags = append(tags, "same-cols")
@@ -338,6 +411,14 @@ func runC05(ctx *Ctx) {
 			b = deriveBranch(r, base, 0.25, 0.15, r.Intn(3), 10+5*r.Intn(2))
 		}
 		specs = append(specs, b)
+	}
+	if len(pk) > 0 && r.Intn(4) == 0 {
+		// column-changing branches (the base keeps its columns)
+		for j := 1; j < len(specs); j++ {
+			if r.Intn(3) != 0 {
+				specs[j] = changeColumns(r, specs[j], fmt.Sprint(j))
+			}
+		}
 	}
 	c05Emit(ctx, specs, fmt.Sprintf("mode=%d", mode))
 }
